@@ -429,6 +429,25 @@ def evaluate(case, native):
             if ts(stop['time']['arrival']) != arr[i] or ts(stop['time']['departure']) != dep[i]:
                 return True, f'stop {i}: written times {stop["time"]}, recomputed arrival {arr[i]} departure {dep[i]}'
         return False, 'written statistic, loads, distances and times equal the recomputation'
+    if kind == 'job_rules':
+        job, rule = case['job'], case['rule']
+        lists = {k: job.get(k) for k in ('pickups', 'deliveries', 'replacements', 'services')}
+        every = [t for v in lists.values() for t in (v or [])]
+        need = [t for k in ('pickups', 'deliveries', 'replacements') for t in (lists[k] or [])]
+        total = lambda ts_, d: sum((t.get('demand') or [0] * (d + 1))[d] if len(t.get('demand') or []) > d else 0 for t in ts_)
+        dims = max([len(t.get('demand') or []) for t in every] + [0])
+        broken = {
+            'E1101': any('demand' not in t for t in need) or any('demand' in t for t in (lists['services'] or [])),
+            'E1102': bool(lists['pickups']) and bool(lists['deliveries']) and any(total(lists['pickups'], d) != total(lists['deliveries'], d) for d in range(dims)),
+            'E1105': len(every) == 0,
+            'E1106': any(p['duration'] < 0 for t in every for p in t['places']),
+            'E1107': any(x < 0 for t in every for x in (t.get('demand') or [])),
+        }[rule]
+        reported = rule in native['codes']
+        if reported != broken:
+            return True, (f'validator {"reports" if reported else "does not report"} {rule} for the job {json.dumps(job)} although the documented rule is '
+                          f'{"broken" if broken else "not broken"} (all codes reported: {native["codes"]})')
+        return False, f'{rule}: reported={reported} agrees with the documented rule'
     if kind == 'tour_order':
         def greater(a, b):
             return (a['kind'] == 'value' and b['kind'] == 'value' and a['value'] > b['value']) or (a['kind'] == 'default' and b['kind'] == 'value')
